@@ -457,6 +457,26 @@ pub fn run(cmd: &str, args: &[&str]) -> String {
             let _ = handle.join();
             evs.join(" ")
         }
+        ("consts", []) => {
+            // constants as the COMPILED code sees them (validates the translator's reading of the sources)
+            use weechess_core::{Rank, File, CASTLE_CHECK_MASKS, CASTLE_DESTS, CASTLE_PATH_MASKS, FILE_MASKS, KING_ORIGINS, RANK_MASKS};
+            let bb = |b: weechess_core::BitBoard| -> u64 { b.into() };
+            let mut out: Vec<String> = Vec::new();
+            out.push(format!("rank_masks={}", Rank::ALL.iter().map(|r| bb(RANK_MASKS[*r]).to_string()).collect::<Vec<_>>().join(",")));
+            out.push(format!("file_masks={}", File::ALL.iter().map(|r| bb(FILE_MASKS[*r]).to_string()).collect::<Vec<_>>().join(",")));
+            let sides = [Side::King, Side::Queen];
+            let cols = [Color::White, Color::Black];
+            out.push(format!("castle_path={}", sides.iter().flat_map(|s| cols.iter().map(move |c| bb(CASTLE_PATH_MASKS[*s][*c]).to_string())).collect::<Vec<_>>().join(",")));
+            out.push(format!("castle_check={}", sides.iter().flat_map(|s| cols.iter().map(move |c| bb(CASTLE_CHECK_MASKS[*s][*c]).to_string())).collect::<Vec<_>>().join(",")));
+            out.push(format!("king_origins={}", cols.iter().map(|c| { let x: u8 = KING_ORIGINS[*c].into(); x.to_string() }).collect::<Vec<_>>().join(",")));
+            out.push(format!("castle_dests={}", cols.iter().flat_map(|c| sides.iter().map(move |s| { let x: u8 = CASTLE_DESTS[*c][*s].into(); x.to_string() })).collect::<Vec<_>>().join(",")));
+            let w: Vec<String> = [Piece::None, Piece::Pawn, Piece::Knight, Piece::Bishop, Piece::Rook, Piece::Queen, Piece::King].iter().map(|p| format!("{}", weechess_engine::eval::PIECE_PAWN_WORTHS[*p])).collect();
+            out.push(format!("worths={}", w.join(",")));
+            let e = |x: weechess_engine::eval::Evaluation| -> i32 { x.into() };
+            out.push(format!("eval={},{},{},{}", e(weechess_engine::eval::Evaluation::ONE_PAWN), e(weechess_engine::eval::Evaluation::POS_INF), e(weechess_engine::eval::Evaluation::NEG_INF), e(weechess_engine::eval::Evaluation::mate_in_ply(0))));
+            out.push(format!("default_fen={}", weechess_core::notation::Fen::DEFAULT));
+            out.join(";")
+        }
         ("jitter", [seed, n]) => {
             use rand::{Rng, RngCore, SeedableRng};
             let mut rng = rand_chacha::ChaCha8Rng::seed_from_u64(seed.parse().unwrap());
